@@ -333,6 +333,7 @@ func runC08(e *Engine, r *Report) {
 	// same critical section as the user update (C02: setApplied on every exit; C11: lock held at the user call)
 	borrow(e, r, "C02", "MPT-setapplied")
 	borrow(e, r, "C11", "LS-usersm")
+	borrow(e, r, "C15", "DEP-chunk-describes-snapshot", "MPT-chunk-file-sync")
 	ruleRestoreRegistersAll(e, r)
 }
 
